@@ -58,13 +58,18 @@ def bodies(tier, seed):
             out.append((b, [(hdr(HDRS[2], b), di[8]), (hdr(HDRS[1], b), di[5])], CRLF, b'', True))
         out.append((b'xy', [(b'A: b', b'--')], b'', b'--', True))
         out.append((b'xy', [], b'', CRLF + b'epi', True))
+        # epilogues that look like a header block (empty line, CR LF CR x, a header line) after the closing delimiter
+        out.append((b'xy', [(b'A: b', b'd')], b'', CRLF + CRLF + b'x', True))
+        out.append((b'b', [(b'A: b', b'd')], b'', CRLF + b'E: f' + CRLF + CRLF + b't', True))
+        out.append((b'b', [(b'A: b', b'')], CRLF, CRLF + b'\rx' + CRLF, True))
         return out
     bnds = [b'b', b'xy', b'a-a', b'-', b'--', b'B.9', B70]
     for b in bnds:
         di = data_items(b)
         long = len(b) > 10
         for i, d in enumerate(di):
-            out.append((b, [(hdr(HDRS[i % 3], b), d)], b'' if i % 2 else CRLF, [b'', CRLF, CRLF + b'epi', b'--'][i % 4], True))
+            out.append((b, [(hdr(HDRS[i % 3], b), d)], b'' if i % 2 else CRLF,
+                        [b'', CRLF, CRLF + b'epi', b'--', CRLF + CRLF + b'x', CRLF + b'E: f' + CRLF + CRLF + b't', CRLF + b'\rx' + CRLF][i % 7], True))
         if not long:
             # two and three parts, interleaving the adversarial data
             for i in range(0, len(di) - 1, 2):
